@@ -278,14 +278,14 @@ CanSerializeId(c) == Idle /\ born[c] /\ cur[c] # 0 /\ ActOK(c)
 SerializeId(c) ==
   /\ CanSerializeId(c) /\ Len(acts[cur[c]].lv) < MaxDepth /\ Len(ids) < MaxIds
   /\ acts' = AllocIn(acts, cur[c])
-  /\ ids' = Append(ids, [u |-> acts[cur[c]].u, lv |-> LevelIn(acts, cur[c]), used |-> FALSE, node |-> Len(nodes) + 1])
+  /\ ids' = Append(ids, [u |-> acts[cur[c]].u, lv |-> LevelIn(acts, cur[c]), used |-> FALSE, node |-> Len(nodes) + 1, pres |-> FALSE])
   \* the remote action will sit where the id was taken: a placeholder keeps the sibling order of the performed tree
   /\ nodes' = AddNode(acts[cur[c]].node, "act", "eliot:remote_task", "unstarted")
   /\ Begin(c, "ok", [op |-> "SerializeId", c |-> c])
   /\ UNCHANGED <<cur, blocks, born, base, nuuid, dests, anyAdded, buffer, gf, reg, offered, work, ret, nfaults, nmsgs, dev, gh>>
 
 \* Action.continue_task(task_id=ids[i]) in any context (thread, process); each id is continued at most once
-CanContinue(c, i) == Idle /\ born[c] /\ i \in DOMAIN ids /\ ~ids[i].used
+CanContinue(c, i) == Idle /\ born[c] /\ i \in DOMAIN ids /\ ~ids[i].used /\ ~ids[i].pres
 ContinueTask(c, i) ==
   /\ CanContinue(c, i) /\ Room /\ Len(acts) < MaxActs
   /\ acts' = Append(acts, [u |-> ids[i].u, lv |-> ids[i].lv, last |-> 1, fin |-> FALSE, ty |-> "eliot:remote_task",
@@ -296,6 +296,42 @@ ContinueTask(c, i) ==
   /\ nmsgs' = nmsgs + 1
   /\ Begin(c, "ok", [op |-> "ContinueTask", c |-> c, i |-> i])
   /\ UNCHANGED <<cur, blocks, born, base, nuuid, dests, anyAdded, buffer, gf, reg, offered, ret, nfaults, dev, gh>>
+
+\* p = preserve_context(f): takes a task id of the current action (if any) and wraps f; f logs one message "m"
+CanPreserve(c) == Idle /\ born[c] /\ ActOK(c)
+Preserve(c) ==
+  /\ CanPreserve(c) /\ Len(ids) < MaxIds
+  /\ IF cur[c] = 0
+     THEN /\ ids' = Append(ids, [u |-> 0, lv |-> <<>>, used |-> FALSE, node |-> 0, pres |-> TRUE])      \* p is f itself
+          /\ UNCHANGED <<acts, nodes>>
+     ELSE /\ Len(acts[cur[c]].lv) < MaxDepth
+          /\ acts' = AllocIn(acts, cur[c])
+          /\ ids' = Append(ids, [u |-> acts[cur[c]].u, lv |-> LevelIn(acts, cur[c]), used |-> FALSE, node |-> Len(nodes) + 1, pres |-> TRUE])
+          /\ nodes' = AddNode(acts[cur[c]].node, "act", "eliot:remote_task", "unstarted")
+  /\ Begin(c, "ok", [op |-> "Preserve", c |-> c])
+  /\ UNCHANGED <<cur, blocks, born, base, nuuid, dests, anyAdded, buffer, gf, reg, offered, work, ret, nfaults, nmsgs, dev, gh>>
+\* p(): at most once -- a second invocation raises TooManyCalls; otherwise `with Action.continue_task(task_id): return f()`
+CanCallPreserved(c, i) == Idle /\ born[c] /\ i \in DOMAIN ids /\ ids[i].pres /\ (ids[i].u = 0 => ActOK(c))
+CallPreserved(c, i) ==
+  /\ CanCallPreserved(c, i) /\ Room /\ Len(acts) < MaxActs
+  /\ IF ids[i].u = 0
+     THEN \* no action was current when p was made: p is f, a plain log_message in the caller's context
+          /\ LET r == LogAllocMsg(c, "m", MsgFields("m"), "") IN
+             acts' = r[1] /\ nuuid' = r[2] /\ work' = <<WriteItem(r[3])>>
+          /\ nodes' = AddNode(NodeOfCur(c), "msg", "m", "") /\ nmsgs' = nmsgs + 1
+          /\ Begin(c, "ok", [op |-> "CallPreserved", c |-> c, i |-> i]) /\ UNCHANGED ids
+     ELSE IF ids[i].used
+     THEN /\ Begin(c, "toomany", [op |-> "CallPreserved", c |-> c, i |-> i])
+          /\ UNCHANGED <<acts, nuuid, work, nodes, nmsgs, ids>>
+     ELSE /\ acts' = Append(acts, [u |-> ids[i].u, lv |-> ids[i].lv, last |-> 1, fin |-> FALSE, ty |-> "eliot:remote_task",
+                                   succ |-> {}, node |-> ids[i].node, inwith |-> FALSE])
+          /\ ids' = [ids EXCEPT ![i].used = TRUE]
+          /\ work' = <<[t |-> "pc_exit", a |-> Len(acts) + 1], [t |-> "pc_log", a |-> Len(acts) + 1], [t |-> "pc_enter", a |-> Len(acts) + 1],
+                       WriteItem(Msg(ids[i].u, Append(ids[i].lv, 1), "start", "eliot:remote_task", "started", {}, ""))>>
+          /\ nodes' = [nodes EXCEPT ![ids[i].node].st = "started"]
+          /\ nmsgs' = nmsgs + 1 /\ UNCHANGED nuuid
+          /\ Begin(c, "ok", [op |-> "CallPreserved", c |-> c, i |-> i])
+  /\ UNCHANGED <<cur, blocks, born, base, dests, anyAdded, buffer, gf, reg, offered, ret, nfaults, dev, gh>>
 
 \* a new thread starts with no current action; an asyncio task inherits the creator's
 Spawn(c, c2, kind) ==
@@ -455,6 +491,31 @@ Redeliver ==
              ELSE Pop
   /\ UNCHANGED <<acts, cur, blocks, born, base, nuuid, ids, dests, anyAdded, buffer, gf, reg, offered, call, ret, nfaults, nmsgs, nodes, dev, gh, hist>>
 
+\* inside p(): enter the continued action, run f (one message), leave it (context restored, then the end message)
+PcEnter ==
+  /\ Busy /\ Top.t = "pc_enter"
+  /\ blocks' = [blocks EXCEPT ![call.c] = Append(@, [kind |-> "with", act |-> Top.a, saved |-> cur[call.c]])]
+  /\ cur' = [cur EXCEPT ![call.c] = Top.a]
+  /\ acts' = [acts EXCEPT ![Top.a].inwith = TRUE]
+  /\ work' = Pop
+  /\ UNCHANGED <<born, base, nuuid, ids, dests, anyAdded, buffer, gf, reg, offered, call, ret, nfaults, nmsgs, nodes, dev, gh, hist>>
+PcLog ==
+  /\ Busy /\ Top.t = "pc_log"
+  /\ acts' = AllocIn(acts, Top.a)
+  /\ work' = ReplaceTop(WriteItem(Msg(acts[Top.a].u, LevelIn(acts, Top.a), "msg", "m", "", MsgFields("m"), "")))
+  /\ nodes' = AddNode(acts[Top.a].node, "msg", "m", "")
+  /\ nmsgs' = nmsgs + 1
+  /\ UNCHANGED <<cur, blocks, born, base, nuuid, ids, dests, anyAdded, buffer, gf, reg, offered, call, ret, nfaults, dev, gh, hist>>
+PcExit ==
+  /\ Busy /\ Top.t = "pc_exit"
+  /\ LET b == Last(blocks[call.c]) IN
+     /\ cur' = [cur EXCEPT ![call.c] = b.saved]
+     /\ blocks' = [blocks EXCEPT ![call.c] = Front(@)]
+     /\ work' = Pop \o FinishWork(acts, Top.a, "ok")
+     /\ acts' = [MarkFin(acts, Top.a) EXCEPT ![Top.a].inwith = FALSE]
+     /\ nodes' = NodeSt(nodes, acts, Top.a, "ok")
+  /\ UNCHANGED <<born, base, nuuid, ids, dests, anyAdded, buffer, gf, reg, offered, call, ret, nfaults, nmsgs, dev, gh, hist>>
+
 \* the public call returns to the application
 Return ==
   /\ call.c # 0 /\ work = <<>>
@@ -463,7 +524,8 @@ Return ==
 
 \* internal steps that involve no choice and no harness-visible event
 Silent == EndMsg \/ WritePlain \/ WriteMissing \/ TbMsg \/ SfMsg \/ BufferAppend \/ SendDone \/ Report \/ ReportDone \/ Redeliver
-SilentEnabled == Busy /\ \/ Top.t \in {"endmsg", "tbmsg", "sfmsg", "report", "redeliver"}
+          \/ PcEnter \/ PcLog \/ PcExit
+SilentEnabled == Busy /\ \/ Top.t \in {"endmsg", "tbmsg", "sfmsg", "report", "redeliver", "pc_enter", "pc_log", "pc_exit"}
                          \/ (Top.t = "write" /\ ~NeedsSer(Top.m))
                          \/ (Top.t = "send" /\ (~anyAdded \/ Pending(Top) = <<>>))
 
@@ -488,6 +550,7 @@ Next ==
        \/ F("tb") /\ \E o \in {"exc", "x1"} : (o = "x1" => F("ext")) /\ WriteTraceback(c, o)
        \/ F("ext") /\ \E k \in {"E0", "E1", "E2"} : Register(c, k)
        \/ F("remote") /\ (SerializeId(c) \/ \E i \in DOMAIN ids : ContinueTask(c, i))
+       \/ F("preserve") /\ (Preserve(c) \/ \E i \in DOMAIN ids : CallPreserved(c, i))
        \/ F("spawn") /\ \E c2 \in Ctx, k \in {"thread", "task"} : Spawn(c, c2, k)
        \/ F("dests") /\ (\/ \E S \in SUBSET Dest : AddDests(c, S)
                          \/ \E d \in Dest : RemoveDest(c, d)
@@ -556,11 +619,11 @@ C04_TasksFresh == \A a, b \in DOMAIN acts : (a # b /\ acts[a].lv = <<>> /\ acts[
 C05_NoLeak == [][\A c \in Ctx : cur'[c] # cur[c] => (call'.c = c \/ (~born[c] /\ born'[c]))]_vars
 
 ---- (* C06: serialized ids *)
-C06_IdFresh == /\ \A i, j \in DOMAIN ids : i # j => <<ids[i].u, ids[i].lv>> # <<ids[j].u, ids[j].lv>>
+C06_IdFresh == /\ \A i, j \in DOMAIN ids : (i # j /\ ids[i].u # 0) => <<ids[i].u, ids[i].lv>> # <<ids[j].u, ids[j].lv>>
                /\ \A i \in DOMAIN ids : \A d \in Dest : \A j \in DOMAIN offered[d] : Keys(d)[j] # <<ids[i].u, ids[i].lv>>
 
 ---- (* C07: calls return normally (or with the application's own exception) *)
-C07_NeverRaises == ret.v \in {"none", "ok", "app"} \/ (ret.v = "abort" /\ "Abort" \in dev)
+C07_NeverRaises == ret.v \in {"none", "ok", "app", "toomany"} \/ (ret.v = "abort" /\ "Abort" \in dev)
 
 ---- (* C08 / C12: every destination is offered exactly what it should be, once, in order *)
 C08_OnceEachInOrder == (Idle /\ "Abort" \notin dev) => \A d \in Dest : Keys(d) = gh.expect[d]
